@@ -195,8 +195,9 @@ func (uconn *UConn) uLoadSession() error {
 		if session == nil || err != nil {
 			return err
 		}
-		if session.version == VersionTLS12 {
-			// We use the session ticket extension for tls 1.2 session resumption
+		if session.version < VersionTLS13 {
+			// We use the session ticket extension for tls 1.2 (and earlier: RFC 5077
+			// tickets are not tied to TLS 1.2) session resumption
 			uconn.sessionController.initSessionTicketExt(session, hello.sessionTicket)
 			if uconn.sessionController.state == SessionTicketExtInitialized {
 				// (not when the spec has no session ticket extension and resumption
